@@ -8,7 +8,7 @@ EXTENDS Naturals, Sequences, TLC, Json
 CONSTANT MaxNames
 \* (names of the language's own vocabulary - built-in types List, Set, Dict, Tuple, Any, Callable, Int .. and the built-in functions print, input -
 \* are not "fresh legal names" and are not targets)
-LowerTargets == {"plain_rn", "size", "init", "super", "math", "typing", "abc", "str", "int", "range", "slice", "selfie", "len", "id", "list", "ann"}
+LowerTargets == {"s", "se", "sel", "plain_rn", "size", "init", "super", "math", "typing", "abc", "str", "int", "range", "slice", "selfie", "len", "id", "list", "ann"}
 ClassTargets == {"Plain_Rn", "Optional", "Union", "ABC", "NewType", "Exception2", "Int2", "Generic", "Typing", "Math"}
 Targets(kind) == CASE kind = "class" -> ClassTargets
                    [] kind = "method" -> LowerTargets \ {"init"}          \* init is the documented constructor name
@@ -19,5 +19,7 @@ Renamings == {[kind |-> "all", index |-> 0, to |-> "fresh"]}
 VARIABLE x
 Init == x = 0
 Next == UNCHANGED x
-Emit == PrintT("@@" \o ToJson([renamings |-> {r \in Renamings : r.to \in Targets(r.kind) \/ r.kind = "all"}]))
+\* prefix pairs: the i-th and the j-th name of a kind become  p  and  p_count  (one user name a proper prefix of another)
+PrefixPairs == {[kind |-> k, index |-> i, to |-> "<prefix-pair>", other |-> j] : k \in {"var", "field", "fun"}, i \in 1..MaxNames, j \in 1..MaxNames}
+Emit == PrintT("@@" \o ToJson([renamings |-> {r \in Renamings : r.to \in Targets(r.kind) \/ r.kind = "all"}, prefix_pairs |-> {r \in PrefixPairs : r.index # r.other}]))
 =====================================================================================
